@@ -4,6 +4,8 @@ CONSTANTS
   Code = {"c1","c2","c3"}
   SKey = {"k1","k2","k3","k4"}
   Changes = {}
+  MaxHandles = 0
+  HChanges = {}
   KnownDefects = {}
   Log <- LogLast
 CONSTRAINT HighWater
